@@ -244,7 +244,13 @@ func c13GenRelated(r *rand.Rand, g *DocGen) c13Patch {
 
 // c13RunPatchRFC: the random stream of related locations, and a fixed table of moves and copies
 // inside one list of four on every route.
+// c13RuleMore is appended to the property's generation rule (kept here so that c13.go stays as it is).
+const c13RuleMore = " FURTHER (c13_patch.go, c13_more.go): patch: every patch case is also held to the RFC 6902 reference interpreter (outcome and document; non-root locations), and a stream of operations with RELATED locations runs on documents holding a marked list of 2-9 distinguishable elements: from and path inside one list (every pair of positions incl. one past the end), from an element into / out of another element of the same list, path an ancestor or a descendant of from, from == path, members of one container, list element <-> container member, as move (7 in 10), copy, add / replace with valueFrom, remove; plus a fixed table of 16 such pairs x move / copy x every route. Routes: additionally the OpSpec / ActionSpec holding the operation executed as it is, by value and by pointer. Every execution is preceded by an operation of the same kind that FAILS part-way on another document through another executor (template failing after emitting text / unparsable YAML result, export whose encoder fails after the file was opened (NaN in JSON, text of a container) or whose file cannot be opened, import of an unparsable file, move whose add step fails, set without data / with an unknown strategy). set: structurally equal maps / lists inside the payload are ONE Go object. Histories: before and after every execution the document is read through Children / Items, AsMap, Flatten, Search, Lookup of every flattened path, Clone and Equals, which must all show one document. Kind large (direct predicates only, a fixed handful per run): import in text / binary mode of files in which a 2-, 3- or 4-byte character lies across byte 512 / 4 KiB / 64 KiB / 1 MiB, files of exactly these sizes -1 / +0 / +1, and yaml / json export -> import round trips of subtrees full of multi-byte characters whose files are just under / over 4 KiB and 64 KiB and about 1 MiB."
+
 func c13RunPatchRFC(c *Ctx) {
+	if !strings.Contains(c.P.Rule, c13RuleMore) {
+		c.P.Rule += c13RuleMore
+	}
 	r := c.Rng
 	g := c13Gen()
 	for i := 0; i < c.N(700); i++ {
